@@ -39,18 +39,14 @@ Proof.
   [rewrite Ht | rewrite Ho | rewrite Hu]; reflexivity.
 Qed.
 
-(* NaN in, NaN out at the level of the sum (at least one threshold; positive finite weights are not needed) *)
-Lemma firm_point_nan c s (a : Q) (f o d : xv) (tws : list (xv * xv)) :
-  tws <> [] -> xisinf f = false -> xisinf o = false -> disc_ok d ->
-  Forall (fun tw => xisinf (fst tw) = false) tws ->
-  (f = XNaN \/ o = XNaN) -> firm_point c f o (XFin a) d s tws = XNaN.
+(* NaN in, NaN out at the level of the sum (at least one threshold): no hypothesis on the remaining data -- thresholds,
+   weights, the other of forecast / observation may be finite, infinite or NaN, any risk parameter and discount *)
+Lemma firm_point_nan c s (a f o d : xv) (tws : list (xv * xv)) :
+  tws <> [] -> (f = XNaN \/ o = XNaN) -> firm_point c f o a d s tws = XNaN.
 Proof.
-  intros Hne Hf Ho Hd Ht Hnan. destruct tws as [|tw r]; [congruence|]. inversion Ht; subst.
-  rewrite firm_point_cons. pose proof (firm_nan_iff s a f o (fst tw) d Hf Ho H1 Hd) as H.
-  destruct (gen_firm_single f o (XFin a) (fst tw) d s) as [[tot ov] un]. destruct H as [A [B C]].
-  assert (E : firm_comp c (tot, ov, un) = XNaN).
-  { destruct c; simpl; [apply A | apply B | apply C]; tauto. }
-  rewrite E. destruct (snd tw) as [| |[|]]; reflexivity.
+  intros Hne Hnan. destruct tws as [|tw r]; [congruence|].
+  rewrite firm_point_cons, (firm_nan_in s a f o (fst tw) d) by tauto.
+  destruct c; simpl; rewrite xmul_nan_r; reflexivity.
 Qed.
 
 (* ---------------- risk matrix: one cell, then the plain double sum ---------------- *)
